@@ -127,8 +127,10 @@ impl Epoch {
         iers_only: bool,
         provider: L,
     ) -> Option<f64> {
+        let tai_duration = self.to_tai_duration();
         for leap_second in provider.rev() {
-            if self.to_tai_duration().to_seconds() >= leap_second.timestamp_tai_s
+            // Compare exact durations: converting this epoch to floating point seconds loses the nanoseconds.
+            if tai_duration >= leap_second.timestamp_tai_s * Unit::Second
                 && (!iers_only || leap_second.announced_by_iers)
             {
                 return Some(leap_second.delta_at);
